@@ -594,7 +594,10 @@ Theorem verifies_sound : forall pk c subj, verifies pk c subj = true ->
   /\ d_issuer (c_digest c) = c_issuer c /\ d_info (c_digest c) = c_info c.
 Proof.
   intros pk c subj H. unfold verifies, digest_eqb, hashdata in H. cbn [d_subj d_type d_created d_exp d_primary d_info d_issuer] in H.
-  repeat (apply andb_true_iff in H; destruct H as [H ?]).
+  apply andb_true_iff in H. destruct H as [H0 H].
+  apply andb_true_iff in H. destruct H as [H H7]. apply andb_true_iff in H. destruct H as [H H6].
+  apply andb_true_iff in H. destruct H as [H H5]. apply andb_true_iff in H. destruct H as [H H4].
+  apply andb_true_iff in H. destruct H as [H H3]. apply andb_true_iff in H. destruct H as [H1 H2].
   repeat split; try (apply Z.eqb_eq; assumption).
   - apply subject_eqb_eq. assumption.
   - apply eqb_lz_eq. assumption.
